@@ -28,7 +28,7 @@ import (
 )
 
 func init() {
-	register(&Scenario{Name: "sysrace", Props: []string{"C12"}, Kind: "system", Run: runSysRace})
+	register(&Scenario{Name: "sysrace", Props: []string{"C12", "C13", "C06"}, Kind: "system", Run: runSysRace})
 }
 
 var raceLogOffset int64
@@ -277,6 +277,29 @@ func runSysRace(x *X) {
 			x.Violate("C12", "C12/shutdown-blocked", "shutdownGracefully did not return within a simulated minute after concurrent traffic")
 		}
 		x.Probe("race-run-completed")
+		// C13 under true parallelism: nothing is in flight any more, so the books must balance --
+		// per backend (successful + failed = total; updates of one record lost by overlapping
+		// writers show here) and overall (every per-backend record belongs to a counted request)
+		{
+			m := mc.GetMetrics()
+			var sumB uint64
+			for name, bm := range m.BackendMetrics {
+				sumB += bm.TotalRequests
+				if bm.SuccessfulRequests+bm.FailedRequests != bm.TotalRequests {
+					x.Violate("C13", "C13/per-backend-classes-do-not-add-up{parallel}", "after %d goroutines of concurrent traffic and nothing in flight: backend %s has successful(%d)+failed(%d) != total(%d)", nG, name, bm.SuccessfulRequests, bm.FailedRequests, bm.TotalRequests)
+				}
+				if bm.ActiveConnections != 0 {
+					x.Violate("C13", "C13/gauge-metrics{parallel}", "after %d goroutines of concurrent traffic and nothing in flight: backend %s reports active_connections=%d", nG, name, bm.ActiveConnections)
+				}
+			}
+			if sumB > m.TotalRequests {
+				x.Violate("C13", "C13/per-backend-total{parallel}", "the per-backend totals add up to %d, more than total_requests=%d", sumB, m.TotalRequests)
+			}
+			if m.SuccessfulRequests+m.FailedRequests+m.RateLimitedRequests != m.TotalRequests {
+				x.Violate("C13", "C13/classes-do-not-add-up{parallel}", "after %d goroutines of concurrent traffic and nothing in flight: successful(%d)+failed(%d)+rate_limited(%d) != total_requests(%d)", nG, m.SuccessfulRequests, m.FailedRequests, m.RateLimitedRequests, m.TotalRequests)
+			}
+			x.Probe("books-checked-after-parallel-traffic")
+		}
 		if o.breaker != nil {
 			for _, cbm := range mc.GetMetrics().CircuitBreakerMetrics {
 				if !cbm.LastStateChange.IsZero() {
@@ -302,6 +325,30 @@ func runSysRace(x *X) {
 			short = short[:1500]
 		}
 		x.Violate("C12", "C12/race{"+strings.Join(uniqStrings(sites), "+")+"}", "data race between %v:\n%s", sites, short)
+		// A data race inside the code a property rests on is reported under that property too,
+		// as what it is: the lost update or the torn value itself takes luck to draw (a window of
+		// nanoseconds), the race that makes it possible does not.
+		key := strings.Join(uniqStrings(sites), "+")
+		all := func(prefixes ...string) bool {
+			for _, st := range sites {
+				ok := false
+				for _, p := range prefixes {
+					if strings.HasPrefix(st, p) {
+						ok = true
+					}
+				}
+				if !ok {
+					return false
+				}
+			}
+			return true
+		}
+		if all("internal/metrics/") {
+			x.Violate("C13", "C13/race-in-accounting{"+key+"}", "data race between %v in the metrics collector under %d goroutines of traffic (request accounting rests on these counters being updated race-free):\n%s", sites, nG, short)
+		}
+		if all("internal/loadbalancer/ip_hash") {
+			x.Violate("C06", "C06/race-in-hash{"+key+"}", "data race between %v in the hash strategy under %d goroutines of traffic (one client, one backend rests on the hash step being race-free):\n%s", sites, nG, short)
+		}
 	}
 }
 
